@@ -70,6 +70,34 @@ impl SvgModel {
         }
         b
     }
+    /// the same final state reached by calling the setters in the opposite order (layers keep their order)
+    pub fn to_builder_rev(&self) -> SvgBuilder {
+        let mut b = SvgBuilder::default();
+        if let Some((x, y)) = self.image_position {
+            b.image_position(x, y);
+        }
+        if let Some(g) = self.image_gap {
+            b.image_gap(g);
+        }
+        if let Some(s) = self.image_size {
+            b.image_size(s);
+        }
+        b.image_background_shape(FRAMES[self.frame]);
+        b.image_background_color(self.image_background);
+        if let Some(i) = &self.image {
+            b.image(i.clone());
+        }
+        for (s, c) in &self.layers {
+            match c {
+                Some(c) => b.shape_color(SHAPES[*s], *c),
+                None => b.shape(SHAPES[*s]),
+            };
+        }
+        b.background_color(self.background);
+        b.module_color(self.module_color);
+        b.margin(self.margin);
+        b
+    }
     pub fn key(&self) -> String {
         format!("{:?}", self)
     }
